@@ -1780,7 +1780,21 @@ func (e *Engine) sliceOp(st *State, x *ssa.Slice) {
 		}
 		e.emit(st, "bounds", e.site(x, "slice"), and(sx("<=", "0", lo), sx("<=", lo, hi), sx("<=", hi, n)), "array slice bounds "+e.posOf(x.Pos()))
 		if base.Addr != nil {
-			panic(unsupported{"slice of local array"})
+			// an array that lives in a local variable or a package-level
+			// variable (key prefixes, version bytes): the slice is modelled
+			// as a view of a fresh region holding the array's current content.
+			// A write through such a slice would not be seen in the array
+			// (A13: these slices are only read).
+			if base.Addr.Kind != aGlobal && base.Addr.Kind != aCell {
+				panic(unsupported{"slice of an interior array"})
+			}
+			e.Assumed["A13 slices of local / package-level arrays are read-only views (copy of the array content at slicing time)"] = true
+			arr := e.load(st, base.Addr)
+			r := e.freshRef(st, "arrview")
+			c, s := e.elemComp(at.Elem())
+			e.heapSet(st, c, s, sx("store", e.heapGet(st, c, s), r, arr))
+			e.setTerm(st, x, sx("mk_Slice", r, lo, sx("-", hi, lo), sx("-", n, lo)))
+			return
 		}
 		e.setTerm(st, x, sx("mk_Slice", base.T, lo, sx("-", hi, lo), sx("-", n, lo)))
 	default:
